@@ -44,6 +44,8 @@ FeatureChecker::FeatureChecker(Document& document)
 bool FeatureChecker::visitTemplateBefore(template_t& templ)
 {
     // Only check features if template is actually used in the system
+    if (templ.is_instantiated)
+        visitFrame(templ.frame);  // channels declared locally count like the global ones
     return templ.is_instantiated;
 }
 
